@@ -1081,6 +1081,11 @@ class Unit:
             self.struct_text[name] = 'struct %s { union {\n%s\n}; }%s;' % (sn, '\n'.join(lines), al)
         else:
             self.struct_text[name] = 'struct %s {\n%s\n}%s;' % (sn, '\n'.join(lines), al)
+        if sn.startswith('lambda_'):
+            # closure fields are named after what they capture; specs may refer to them by position instead (robust against renaming
+            # the captured variable): VF_CAP_<closure struct>_<k> is the k-th capture field
+            caps = [cname for kind, cname, x in fields if kind == 'field']
+            self.struct_text[name] += ''.join('\n#define VF_CAP_%s_%d %s' % (sn, i + 1, c) for i, c in enumerate(caps))
         self.struct_state[name] = 'done'
         self.struct_order.append(name)
         self.layout_checks.append((name, sn, checks, rec))
